@@ -138,6 +138,24 @@ fn explore_program(prop: &str, idx: usize, e: &Entry, first: Option<usize>, alph
     let eval = |seq: &[usize], t: &mut Tally| {
         let items: Vec<Item> = seq.iter().map(|i| alphabet[*i].clone()).collect();
         let (src, exp) = build_case(&e.prog, &items);
+        if prop == "C01" && !exp.is_ok() {
+            // C01 quantifies over mistake-free inputs only (repeats of a non-`multiple` name, or
+            // an absent required member, make the sequence C02's business)
+            t.hit("not_mistake_free_skipped");
+            return;
+        }
+        if prop == "C01" {
+            t.nontrivial += 1;
+            // the same items split over two attributes (element-level traits)
+            if e.prog.root_trait() != Trait::FromMeta && items.len() >= 2 {
+                let name = e.prog.st(e.prog.root).attrs[0].clone();
+                let (prefix, suffix) = element_wrapper(e.prog.root_trait());
+                let cut = items.len() / 2;
+                let src2 = format!("{prefix}#[{name}({})] #[{name}({})] {suffix}", vmodel::input::items_text(&items[..cut]), vmodel::input::items_text(&items[cut..]));
+                let obs2 = (e.run)(&src2);
+                judge(prop, idx, &e.prog, &items, &src2, &exp, &obs2, t);
+            }
+        }
         let obs = (e.run)(&src);
         judge(prop, idx, &e.prog, &items, &src, &exp, &obs, t);
         t.states += 1;
@@ -764,6 +782,93 @@ fn explore_attrs(idx: usize, e: &Entry, first: Option<usize>, thorough: bool, t:
     }
 }
 
+/// Wide receivers (216 option combinations as fields): structured mistake-free inputs.
+fn explore_wide(prop: &str, idx: usize, e: &Entry, t: &mut Tally) {
+    let s = e.prog.st(e.prog.root);
+    let names: Vec<String> = s.fields.iter().map(|f| s.eff_name(f)).collect();
+    let addressable: Vec<usize> = (0..s.fields.len()).filter(|i| s.fields[*i].addressable() && !names[*i].contains('-')).collect();
+    let required: Vec<usize> = (0..s.fields.len()).filter(|i| {
+        let f = &s.fields[*i];
+        !f.skip && !f.multiple && f.dflt == Dflt::None && !s.has_container_default()
+    }).collect();
+    let val = |i: usize, form: usize| -> String {
+        let v = 20 + i;
+        // and_then rejects 13 after `with` adds 100: values here never hit it
+        match form {
+            0 => format!("{v}"),
+            1 => format!("\"{v}\""),
+            2 => format!("{:#x}", v),
+            3 => format!("{v}u32"),
+            _ => format!("{v}_"),
+        }
+    };
+    let run = |items: Vec<Item>, t: &mut Tally| {
+        let (src, exp) = build_case(&e.prog, &items);
+        if !exp.is_ok() {
+            t.hit("not_mistake_free_skipped");
+            return;
+        }
+        let obs = (e.run)(&src);
+        judge(prop, idx, &e.prog, &items, &src, &exp, &obs, t);
+        t.states += 1;
+        t.transitions += 1;
+        t.nontrivial += 1;
+        t.hit("wide_inputs");
+    };
+    let base: Vec<Item> = required.iter().map(|i| Item::nv(&names[*i], &val(*i, 0))).collect();
+    run(vec![], t);
+    run(base.clone(), t);
+    // each other addressable member in each literal form, before and after the required ones
+    for &i in &addressable {
+        for form in 0..5 {
+            let it = Item::nv(&names[i], &val(i, form));
+            let mut a: Vec<Item> = base.iter().filter(|b| b.name() != Some(names[i].as_str())).cloned().collect();
+            let mut b = a.clone();
+            a.push(it.clone());
+            b.insert(0, it);
+            run(a, t);
+            run(b, t);
+        }
+        if s.fields[i].multiple {
+            for n in 2..=3 {
+                let mut a = base.clone();
+                for k in 0..n {
+                    a.push(Item::nv(&names[i], &val(i + k, k % 4)));
+                }
+                run(a, t);
+            }
+        }
+    }
+    // every addressable member once, in declaration order and in reverse; with every member of
+    // a `multiple` field given twice
+    let all: Vec<Item> = addressable.iter().map(|i| Item::nv(&names[*i], &val(*i, *i % 4))).collect();
+    run(all.clone(), t);
+    run(all.iter().rev().cloned().collect(), t);
+    let mut twice = all.clone();
+    for &i in &addressable {
+        if s.fields[i].multiple {
+            twice.push(Item::nv(&names[i], &val(i + 1, 1)));
+        }
+    }
+    run(twice, t);
+    // unknown and skipped names interleaved where unknown fields are allowed
+    if s.allows_unknown() {
+        let mut v = vec![Item::nv("zz", "1")];
+        for (k, it) in all.iter().enumerate() {
+            v.push(it.clone());
+            if k % 7 == 0 {
+                v.push(Item::list("zz", vec![Item::word("q")]));
+            }
+        }
+        for (i, f) in s.fields.iter().enumerate() {
+            if f.skip && !names[i].contains('-') && i % 5 == 0 {
+                v.push(Item::nv(&names[i], "1"));
+            }
+        }
+        run(v, t);
+    }
+}
+
 /// Sequence length bound for a program: chosen so that the sequence tree stays below `budget`.
 pub fn seq_bound(alpha: usize, want: usize, budget: u64) -> usize {
     let mut l = want;
@@ -835,7 +940,7 @@ pub fn main(entries: Vec<Entry>) {
         .iter()
         .enumerate()
         .flat_map(|(i, e)| {
-            let a = if matches!(&e.prog.decls[e.prog.root], Decl::Struct(s) if s.tr8.element_level() && s.attrs.is_empty()) { 0 } else if prop == "C17" { 0 } else if prop == "C08" { corpus::attr_alphabet().len() } else if matches!(e.prog.decls[e.prog.root], Decl::Enum(_)) { 0 } else { corpus::root_alphabet(&e.prog).len() };
+            let a = if e.prog.family.starts_with("wide ") { 0 } else if matches!(&e.prog.decls[e.prog.root], Decl::Struct(s) if s.tr8.element_level() && s.attrs.is_empty()) { 0 } else if prop == "C17" { 0 } else if prop == "C08" { corpus::attr_alphabet().len() } else if matches!(e.prog.decls[e.prog.root], Decl::Enum(_)) { 0 } else { corpus::root_alphabet(&e.prog).len() };
             std::iter::once((i, None)).chain((0..a).map(move |f| (i, Some(f))))
         })
         .collect();
@@ -853,6 +958,13 @@ pub fn main(entries: Vec<Entry>) {
                     for v in &mut t.violations {
                         v.key = v.key.replacen("C08 ", &format!("{prop} "), 1);
                     }
+                    t.hit("programs");
+                }
+                return t;
+            }
+            if e.prog.family.starts_with("wide ") {
+                if first.is_none() {
+                    explore_wide(&prop, *i, e, &mut t);
                     t.hit("programs");
                 }
                 return t;
@@ -876,8 +988,11 @@ pub fn main(entries: Vec<Entry>) {
                 t.hit("programs");
                 return t;
             }
-            let alphabet = corpus::root_alphabet(&e.prog);
-            let l = seq_bound(alphabet.len(), want_len, budget);
+            let alphabet = if prop == "C01" { corpus::valid_alphabet(&e.prog) } else { corpus::root_alphabet(&e.prog) };
+            let l = if prop == "C01" { seq_bound(alphabet.len().max(1), want_len + 1, budget * 4) } else { seq_bound(alphabet.len(), want_len, budget) };
+            if first.map(|f| f >= alphabet.len()).unwrap_or(false) {
+                return t;
+            }
             explore_program(&prop, *i, e, *first, &alphabet, l, &mut t);
             if first.is_none() && prop == "C07" {
                 hostile_sweep(*i, e, &mut t);
